@@ -252,6 +252,16 @@ class Sim(object):
   def current_thread(self):
     return self._by_ident.get(_thread.get_ident())
 
+  def sim_ident(self, t):
+    """The thread identifier repository code sees for simulated thread `t`: a
+    thread started after another one has ended (`after`) gets its
+    predecessor's identifier - the reuse every OS practises."""
+    seen = 0
+    while t.after is not None and seen < 64:
+      t = self.threads[t.after]
+      seen += 1
+    return 1000000 + t.tid
+
   def probe(self, name, n=1):
     self.probes[name] = self.probes.get(name, 0) + n
 
